@@ -174,6 +174,7 @@ PROPS['C17']={
  'obligations':[{'name':w,'module':'harness.wire','cls':'RoundTrip','quick':{'what':w,'prop':'C17','nbytes':1,'rate':WIRE_RATE.get(w,10)},'thorough':{'what':w,'prop':'C17','nbytes':2,'rate':WIRE_RATE.get(w,10)},'validate':{'quick':6,'thorough':24}} for w in WIRE_TYPES_Q]}
 PROPS['C17']['obligations']+=[{'name':'adversarial_'+w,'module':'harness.C14','cls':'DecodeAdversarial','quick':{'what':w,'nbytes':1,'prop':'C17'},'thorough':{'what':w,'nbytes':2,'prop':'C17'},'validate':{'quick':6,'thorough':24},
    **({'tier_only':'thorough'} if w in ('layout','statement_naive','metablock_layout','statement_slsa1','predicate_slsa2') else {})} for w in ADV_TYPES]
+PROPS['C17']['obligations']+=[{'name':'text_whitespace','module':'harness.wire','cls':'TextWhitespace','quick':{},'thorough':{},'validate':{'quick':4,'thorough':4}}]
 PROPS['C17']['obligations']+=[{'name':'interchange_entry_points','module':'harness.wire','cls':'EntryPoints','quick':{},'thorough':{},'validate':{'quick':8,'thorough':8}}]
 MO_TYPES=['link','metablock_link','layout','pubkey','byproducts','statement_link','statement_slsa1','predicate_slsa1','step']
 PROPS['C17']['obligations']+=[{'name':'member_order_'+w,'module':'harness.C14','cls':'MemberOrder','quick':{'what':w},'thorough':{'what':w},'validate':{'quick':8,'thorough':24},
